@@ -94,7 +94,22 @@ type c20Sentinel struct{ n int }
 func TestVerif_C20(t *testing.T) {
 	vsInit("C20", c20Rule)
 	defer vsFlush()
-	rapid.Check(t, func(t *rapid.T) {
+	rapid.Check(t, func(t *rapid.T) { c20Machine(t, "C20") })
+}
+
+const c10GateRule = "manager schedule in which a submission is judged against fetched chain data after >=1 version update was seen, or whose hash differs from the recorded version"
+
+// The same machine decides C10's version gate ("accepted only if the hash equals the version
+// recorded on chain (or the latest update event)"): the acceptance oracle is shared, what
+// counts as a non-trivial case differs.
+func TestVerif_C10_VersionGate(t *testing.T) {
+	vsInit("C10", c10GateRule)
+	defer vsFlush()
+	rapid.Check(t, func(t *rapid.T) { c20Machine(t, "C10") })
+}
+
+func c20Machine(t *rapid.T, prop string) {
+	{
 		provider := sdk.AccAddress(secp256k1.GenPrivKeyFromSecret([]byte("verif-c20-prov")).PubKey().Address())
 		owner := sdk.AccAddress(secp256k1.GenPrivKeyFromSecret([]byte("verif-c20-owner")).PubKey().Address())
 		did := dtypes.DeploymentID{Owner: owner.String(), DSeq: 9}
@@ -126,7 +141,7 @@ func TestVerif_C20(t *testing.T) {
 		var sched []string
 		note := func(f string, a ...interface{}) { sched = append(sched, fmt.Sprintf(f, a...)) }
 		fail := func(key, f string, a ...interface{}) {
-			t.Fatalf("C20 VIOLATION key=%s: %s\n-- schedule: %v", key, fmt.Sprintf(f, a...), sched)
+			t.Fatalf("%s VIOLATION key=%s: %s\n-- schedule: %v", prop, key, fmt.Sprintf(f, a...), sched)
 		}
 		stopped := false
 		// barrier: the manager loop takes one message at a time, so when it accepts this no-op
@@ -153,6 +168,7 @@ func TestVerif_C20(t *testing.T) {
 		var subs []*c20Sub
 		var lastValidated *c20Sub // latest submission that passed validation (whatever the reply was)
 		interesting := false
+		gateInteresting := false
 		nextSub := 0
 		sentinelN := 0
 
@@ -203,6 +219,9 @@ func TestVerif_C20(t *testing.T) {
 					continue
 				}
 				s.replied = true
+				if dataState == "have" && !stopped && (len(updates) > 0 || string(s.hash) != string(expectedVersion())) {
+					gateInteresting = true
+				}
 				accept := len(leases) > 0 && dataState == "have" && !stopped && s.valid && string(s.hash) == string(expectedVersion())
 				if e == nil && !accept {
 					fail("c20-accepted-wrongly", "submission #%d (%s) was ACCEPTED after %s although leases=%d data=%s valid=%v hash-matches-version=%v stopped=%v", s.id, s.kind, what, len(leases), dataState, s.valid, string(s.hash) == string(expectedVersion()), stopped)
@@ -457,6 +476,10 @@ func TestVerif_C20(t *testing.T) {
 		case <-time.After(c20Wait):
 			fail("c20-no-reply", "a submission handed to a stopped manager never got a reply")
 		}
-		vsCase("C20|"+strings.Join(sched, ";"), interesting)
-	})
+		if prop == "C10" {
+			vsCase("C10gate|"+strings.Join(sched, ";"), gateInteresting)
+		} else {
+			vsCase("C20|"+strings.Join(sched, ";"), interesting)
+		}
+	}
 }
